@@ -481,7 +481,7 @@ theorem views_upd_nolock (s : St) (hL : LInv s) (i : Nat) (pc : PPc) (pp' : Nat 
   · intro e; have := (hL.poplockP i).2 e; simp [hn2] at this
 
 theorem stepP_ring_none (s : St) (i : Nat) (op : Option POp)  (hpc : s.pp i = .none )
-    (h : TInv s) (hw : NoWrap s.ring) : RingInv (stepP s i op).ring (stepP s i op).puView (stepP s i op).poView := by
+    (h : TInv s) : RingInv (stepP s i op).ring (stepP s i op).puView (stepP s i op).poView := by
   obtain ⟨⟨hv, h1, h2, h3, h4, h5, h6, h7, h8, h9, h10, h11⟩, hring⟩ := h
   have hp : s.v.plock = true := by rw [hv]; rfl
   simp only [stepP, hpc, startP, St.endSample, St.beginSample, St.setP, hp, if_true, trackCloneInc_val, trackDropDec_val, trackCloseWhenPrev_val]
@@ -489,7 +489,7 @@ theorem stepP_ring_none (s : St) (i : Nat) (op : Option POp)  (hpc : s.pp i = .n
   all_goals grind [St.puView, St.poView, pushView, popViewP, popViewC, upd, holdsPush, holdsPopP, holdsPopC, startPush', startPop']
 
 theorem stepP_ring_reserved (s : St) (i : Nat) (op : Option POp)  (hpc : s.pp i = .reserved )
-    (h : TInv s) (hw : NoWrap s.ring) : RingInv (stepP s i op).ring (stepP s i op).puView (stepP s i op).poView := by
+    (h : TInv s) : RingInv (stepP s i op).ring (stepP s i op).puView (stepP s i op).poView := by
   obtain ⟨⟨hv, h1, h2, h3, h4, h5, h6, h7, h8, h9, h10, h11⟩, hring⟩ := h
   have hp : s.v.plock = true := by rw [hv]; rfl
   simp only [stepP, hpc, startP, St.endSample, St.beginSample, St.setP, hp, if_true, trackCloneInc_val, trackDropDec_val, trackCloseWhenPrev_val]
@@ -497,7 +497,7 @@ theorem stepP_ring_reserved (s : St) (i : Nat) (op : Option POp)  (hpc : s.pp i 
   all_goals grind [St.puView, St.poView, pushView, popViewP, popViewC, upd, holdsPush, holdsPopP, holdsPopC, startPush', startPop']
 
 theorem stepP_ring_gone (s : St) (i : Nat) (op : Option POp)  (hpc : s.pp i = .gone )
-    (h : TInv s) (hw : NoWrap s.ring) : RingInv (stepP s i op).ring (stepP s i op).puView (stepP s i op).poView := by
+    (h : TInv s) : RingInv (stepP s i op).ring (stepP s i op).puView (stepP s i op).poView := by
   obtain ⟨⟨hv, h1, h2, h3, h4, h5, h6, h7, h8, h9, h10, h11⟩, hring⟩ := h
   have hp : s.v.plock = true := by rw [hv]; rfl
   simp only [stepP, hpc, startP, St.endSample, St.beginSample, St.setP, hp, if_true, trackCloneInc_val, trackDropDec_val, trackCloseWhenPrev_val]
@@ -505,7 +505,7 @@ theorem stepP_ring_gone (s : St) (i : Nat) (op : Option POp)  (hpc : s.pp i = .g
   all_goals grind [St.puView, St.poView, pushView, popViewP, popViewC, upd, holdsPush, holdsPopP, holdsPopC, startPush', startPop']
 
 theorem stepP_ring_idle (s : St) (i : Nat) (op : Option POp)  (hpc : s.pp i = .idle )
-    (h : TInv s) (hw : NoWrap s.ring) : RingInv (stepP s i op).ring (stepP s i op).puView (stepP s i op).poView := by
+    (h : TInv s) : RingInv (stepP s i op).ring (stepP s i op).puView (stepP s i op).poView := by
   have hL := h.l
   have hring := h.ring
   have hp : s.v.plock = true := by rw [hL.var]; rfl
@@ -542,7 +542,7 @@ theorem stepP_ring_idle (s : St) (i : Nat) (op : Option POp)  (hpc : s.pp i = .i
       rw [this.1, this.2]; exact hring
 
 theorem stepP_ring_acq (s : St) (i : Nat) (op : Option POp) (k v rest) (hpc : s.pp i = .acq k v rest)
-    (h : TInv s) (hw : NoWrap s.ring) : RingInv (stepP s i op).ring (stepP s i op).puView (stepP s i op).poView := by
+    (h : TInv s) : RingInv (stepP s i op).ring (stepP s i op).puView (stepP s i op).poView := by
   obtain ⟨⟨hv, h1, h2, h3, h4, h5, h6, h7, h8, h9, h10, h11⟩, hring⟩ := h
   have hp : s.v.plock = true := by rw [hv]; rfl
   simp only [stepP, hpc, startP, St.endSample, St.beginSample, St.setP, hp, if_true, trackCloneInc_val, trackDropDec_val, trackCloseWhenPrev_val]
@@ -550,7 +550,7 @@ theorem stepP_ring_acq (s : St) (i : Nat) (op : Option POp) (k v rest) (hpc : s.
   all_goals grind [St.puView, St.poView, pushView, popViewP, popViewC, upd, holdsPush, holdsPopP, holdsPopC, startPush', startPop']
 
 theorem stepP_ring_chk (s : St) (i : Nat) (op : Option POp) (k v rest) (hpc : s.pp i = .chk k v rest)
-    (h : TInv s) (hw : NoWrap s.ring) : RingInv (stepP s i op).ring (stepP s i op).puView (stepP s i op).poView := by
+    (h : TInv s) : RingInv (stepP s i op).ring (stepP s i op).puView (stepP s i op).poView := by
   obtain ⟨⟨hv, h1, h2, h3, h4, h5, h6, h7, h8, h9, h10, h11⟩, hring⟩ := h
   have hp : s.v.plock = true := by rw [hv]; rfl
   simp only [stepP, hpc, startP, St.endSample, St.beginSample, St.setP, hp, if_true, trackCloneInc_val, trackDropDec_val, trackCloseWhenPrev_val]
@@ -558,19 +558,19 @@ theorem stepP_ring_chk (s : St) (i : Nat) (op : Option POp) (k v rest) (hpc : s.
   all_goals grind [St.puView, St.poView, pushView, popViewP, popViewC, upd, holdsPush, holdsPopP, holdsPopC, startPush', startPop']
 
 theorem stepP_ring_push (s : St) (i : Nat) (op : Option POp) (c v rest p) (hpc : s.pp i = .push c v rest p)
-    (h : TInv s) (hw : NoWrap s.ring) : RingInv (stepP s i op).ring (stepP s i op).puView (stepP s i op).poView := by
+    (h : TInv s) : RingInv (stepP s i op).ring (stepP s i op).puView (stepP s i op).poView := by
   obtain ⟨⟨hv, h1, h2, h3, h4, h5, h6, h7, h8, h9, h10, h11⟩, hring⟩ := h
   have hp : s.v.plock = true := by rw [hv]; rfl
   have hpl : s.plock = some i := (h1 i).1 (by simp [hpc, holdsPush])
   have hview : s.puView = some (p, (i, v)) := by simp [St.puView, hpl, hpc, pushView]
   rw [hview] at hring
-  obtain ⟨k1, k2, k3⟩ := pushStep_inv hring hw
+  obtain ⟨k1, k2, k3⟩ := pushStep_inv hring
   simp only [stepP, hpc, startP, St.endSample, St.beginSample, St.setP, hp, if_true, trackCloneInc_val, trackDropDec_val, trackCloseWhenPrev_val]
   repeat' split
   all_goals grind [St.puView, St.poView, pushView, popViewP, popViewC, upd, holdsPush, holdsPopP, holdsPopC, startPush', startPop']
 
 theorem stepP_ring_ntf (s : St) (i : Nat) (op : Option POp) (c rest) (hpc : s.pp i = .ntf c rest)
-    (h : TInv s) (hw : NoWrap s.ring) : RingInv (stepP s i op).ring (stepP s i op).puView (stepP s i op).poView := by
+    (h : TInv s) : RingInv (stepP s i op).ring (stepP s i op).puView (stepP s i op).poView := by
   obtain ⟨⟨hv, h1, h2, h3, h4, h5, h6, h7, h8, h9, h10, h11⟩, hring⟩ := h
   have hp : s.v.plock = true := by rw [hv]; rfl
   simp only [stepP, hpc, startP, St.endSample, St.beginSample, St.setP, hp, if_true, trackCloneInc_val, trackDropDec_val, trackCloseWhenPrev_val]
@@ -578,7 +578,7 @@ theorem stepP_ring_ntf (s : St) (i : Nat) (op : Option POp) (c rest) (hpc : s.pp
   all_goals grind [St.puView, St.poView, pushView, popViewP, popViewC, upd, holdsPush, holdsPopP, holdsPopC, startPush', startPop']
 
 theorem stepP_ring_tryLock (s : St) (i : Nat) (op : Option POp) (v rest) (hpc : s.pp i = .tryLock v rest)
-    (h : TInv s) (hw : NoWrap s.ring) : RingInv (stepP s i op).ring (stepP s i op).puView (stepP s i op).poView := by
+    (h : TInv s) : RingInv (stepP s i op).ring (stepP s i op).puView (stepP s i op).poView := by
   obtain ⟨⟨hv, h1, h2, h3, h4, h5, h6, h7, h8, h9, h10, h11⟩, hring⟩ := h
   have hp : s.v.plock = true := by rw [hv]; rfl
   simp only [stepP, hpc, startP, St.endSample, St.beginSample, St.setP, hp, if_true, trackCloneInc_val, trackDropDec_val, trackCloseWhenPrev_val]
@@ -586,7 +586,7 @@ theorem stepP_ring_tryLock (s : St) (i : Nat) (op : Option POp) (v rest) (hpc : 
   all_goals grind [St.puView, St.poView, pushView, popViewP, popViewC, upd, holdsPush, holdsPopP, holdsPopC, startPush', startPop']
 
 theorem stepP_ring_pop (s : St) (i : Nat) (op : Option POp) (v rest p) (hpc : s.pp i = .pop v rest p)
-    (h : TInv s) (hw : NoWrap s.ring) : RingInv (stepP s i op).ring (stepP s i op).puView (stepP s i op).poView := by
+    (h : TInv s) : RingInv (stepP s i op).ring (stepP s i op).puView (stepP s i op).poView := by
   obtain ⟨⟨hv, h1, h2, h3, h4, h5, h6, h7, h8, h9, h10, h11⟩, hring⟩ := h
   have hp : s.v.plock = true := by rw [hv]; rfl
   have hpl : s.plock = some i := (h1 i).1 (by simp [hpc, holdsPush])
@@ -594,13 +594,13 @@ theorem stepP_ring_pop (s : St) (i : Nat) (op : Option POp) (v rest p) (hpc : s.
   have hview : s.poView = some p := by simp [St.poView, hpo, hpc, popViewP]
   have hview2 : s.puView = none := by simp [St.puView, hpl, hpc, pushView]
   rw [hview, hview2] at hring
-  obtain ⟨k1, k2, k3⟩ := popStep_inv hring hw
+  obtain ⟨k1, k2, k3⟩ := popStep_inv hring
   simp only [stepP, hpc, startP, St.endSample, St.beginSample, St.setP, hp, if_true, trackCloneInc_val, trackDropDec_val, trackCloseWhenPrev_val]
   repeat' split
   all_goals grind [St.puView, St.poView, pushView, popViewP, popViewC, upd, holdsPush, holdsPopP, holdsPopC, startPush', startPop']
 
 theorem stepP_ring_clone (s : St) (i : Nat) (op : Option POp) (j') (hpc : s.pp i = .clone j')
-    (h : TInv s) (hw : NoWrap s.ring) : RingInv (stepP s i op).ring (stepP s i op).puView (stepP s i op).poView := by
+    (h : TInv s) : RingInv (stepP s i op).ring (stepP s i op).puView (stepP s i op).poView := by
   have hL := h.l
   have hring := h.ring
   have hn1 : holdsPush (s.pp i) = false := by simp [hpc, holdsPush]
@@ -612,7 +612,7 @@ theorem stepP_ring_clone (s : St) (i : Nat) (op : Option POp) (j') (hpc : s.pp i
   rw [a.1, a.2, b.1, b.2]; exact hring
 
 theorem stepP_ring_fetchSub (s : St) (i : Nat) (op : Option POp)  (hpc : s.pp i = .fetchSub )
-    (h : TInv s) (hw : NoWrap s.ring) : RingInv (stepP s i op).ring (stepP s i op).puView (stepP s i op).poView := by
+    (h : TInv s) : RingInv (stepP s i op).ring (stepP s i op).puView (stepP s i op).poView := by
   have hL := h.l
   have hring := h.ring
   have hn1 : holdsPush (s.pp i) = false := by simp [hpc, holdsPush]
@@ -625,7 +625,7 @@ theorem stepP_ring_fetchSub (s : St) (i : Nat) (op : Option POp)  (hpc : s.pp i 
   · rw [b.1, b.2]; exact hring
 
 theorem stepP_ring_stClosed (s : St) (i : Nat) (op : Option POp)  (hpc : s.pp i = .stClosed )
-    (h : TInv s) (hw : NoWrap s.ring) : RingInv (stepP s i op).ring (stepP s i op).puView (stepP s i op).poView := by
+    (h : TInv s) : RingInv (stepP s i op).ring (stepP s i op).puView (stepP s i op).poView := by
   obtain ⟨⟨hv, h1, h2, h3, h4, h5, h6, h7, h8, h9, h10, h11⟩, hring⟩ := h
   have hp : s.v.plock = true := by rw [hv]; rfl
   simp only [stepP, hpc, startP, St.endSample, St.beginSample, St.setP, hp, if_true, trackCloneInc_val, trackDropDec_val, trackCloseWhenPrev_val]
@@ -633,7 +633,7 @@ theorem stepP_ring_stClosed (s : St) (i : Nat) (op : Option POp)  (hpc : s.pp i 
   all_goals grind [St.puView, St.poView, pushView, popViewP, popViewC, upd, holdsPush, holdsPopP, holdsPopC, startPush', startPop']
 
 theorem stepP_ring_ntfW (s : St) (i : Nat) (op : Option POp)  (hpc : s.pp i = .ntfW )
-    (h : TInv s) (hw : NoWrap s.ring) : RingInv (stepP s i op).ring (stepP s i op).puView (stepP s i op).poView := by
+    (h : TInv s) : RingInv (stepP s i op).ring (stepP s i op).puView (stepP s i op).poView := by
   obtain ⟨⟨hv, h1, h2, h3, h4, h5, h6, h7, h8, h9, h10, h11⟩, hring⟩ := h
   have hp : s.v.plock = true := by rw [hv]; rfl
   simp only [stepP, hpc, startP, St.endSample, St.beginSample, St.setP, hp, if_true, trackCloneInc_val, trackDropDec_val, trackCloseWhenPrev_val]
@@ -641,7 +641,7 @@ theorem stepP_ring_ntfW (s : St) (i : Nat) (op : Option POp)  (hpc : s.pp i = .n
   all_goals grind [St.puView, St.poView, pushView, popViewP, popViewC, upd, holdsPush, holdsPopP, holdsPopC, startPush', startPop']
 
 theorem stepC_ring_idle (s : St) (start : Bool)  (hpc : s.cp = .idle )
-    (h : TInv s) (hw : NoWrap s.ring) : RingInv (stepC s start).ring (stepC s start).puView (stepC s start).poView := by
+    (h : TInv s) : RingInv (stepC s start).ring (stepC s start).puView (stepC s start).poView := by
   obtain ⟨⟨hv, h1, h2, h3, h4, h5, h6, h7, h8, h9, h10, h11⟩, hring⟩ := h
   have hr : s.v.rfix = true := by rw [hv]; rfl
   simp only [stepC, hpc, St.loopTop, St.retC, hr, if_true]
@@ -649,7 +649,7 @@ theorem stepC_ring_idle (s : St) (start : Bool)  (hpc : s.cp = .idle )
   all_goals grind [St.puView, St.poView, pushView, popViewP, popViewC, upd, holdsPush, holdsPopP, holdsPopC, startPush', startPop']
 
 theorem stepC_ring_mkNtf (s : St) (start : Bool)  (hpc : s.cp = .mkNtf )
-    (h : TInv s) (hw : NoWrap s.ring) : RingInv (stepC s start).ring (stepC s start).puView (stepC s start).poView := by
+    (h : TInv s) : RingInv (stepC s start).ring (stepC s start).puView (stepC s start).poView := by
   obtain ⟨⟨hv, h1, h2, h3, h4, h5, h6, h7, h8, h9, h10, h11⟩, hring⟩ := h
   have hr : s.v.rfix = true := by rw [hv]; rfl
   simp only [stepC, hpc, St.loopTop, St.retC, hr, if_true]
@@ -657,7 +657,7 @@ theorem stepC_ring_mkNtf (s : St) (start : Bool)  (hpc : s.cp = .mkNtf )
   all_goals grind [St.puView, St.poView, pushView, popViewP, popViewC, upd, holdsPush, holdsPopP, holdsPopC, startPush', startPop']
 
 theorem stepC_ring_ldEnded (s : St) (start : Bool) (g) (hpc : s.cp = .ldEnded g)
-    (h : TInv s) (hw : NoWrap s.ring) : RingInv (stepC s start).ring (stepC s start).puView (stepC s start).poView := by
+    (h : TInv s) : RingInv (stepC s start).ring (stepC s start).puView (stepC s start).poView := by
   obtain ⟨⟨hv, h1, h2, h3, h4, h5, h6, h7, h8, h9, h10, h11⟩, hring⟩ := h
   have hr : s.v.rfix = true := by rw [hv]; rfl
   simp only [stepC, hpc, St.loopTop, St.retC, hr, if_true]
@@ -665,7 +665,7 @@ theorem stepC_ring_ldEnded (s : St) (start : Bool) (g) (hpc : s.cp = .ldEnded g)
   all_goals grind [St.puView, St.poView, pushView, popViewP, popViewC, upd, holdsPush, holdsPopP, holdsPopC, startPush', startPop']
 
 theorem stepC_ring_lock (s : St) (start : Bool) (g) (hpc : s.cp = .lock g)
-    (h : TInv s) (hw : NoWrap s.ring) : RingInv (stepC s start).ring (stepC s start).puView (stepC s start).poView := by
+    (h : TInv s) : RingInv (stepC s start).ring (stepC s start).puView (stepC s start).poView := by
   obtain ⟨⟨hv, h1, h2, h3, h4, h5, h6, h7, h8, h9, h10, h11⟩, hring⟩ := h
   have hr : s.v.rfix = true := by rw [hv]; rfl
   simp only [stepC, hpc, St.loopTop, St.retC, hr, if_true]
@@ -673,7 +673,7 @@ theorem stepC_ring_lock (s : St) (start : Bool) (g) (hpc : s.cp = .lock g)
   all_goals grind [St.puView, St.poView, pushView, popViewP, popViewC, upd, holdsPush, holdsPopP, holdsPopC, startPush', startPop']
 
 theorem stepC_ring_ldClosed1 (s : St) (start : Bool) (g) (hpc : s.cp = .ldClosed1 g)
-    (h : TInv s) (hw : NoWrap s.ring) : RingInv (stepC s start).ring (stepC s start).puView (stepC s start).poView := by
+    (h : TInv s) : RingInv (stepC s start).ring (stepC s start).puView (stepC s start).poView := by
   obtain ⟨⟨hv, h1, h2, h3, h4, h5, h6, h7, h8, h9, h10, h11⟩, hring⟩ := h
   have hr : s.v.rfix = true := by rw [hv]; rfl
   simp only [stepC, hpc, St.loopTop, St.retC, hr, if_true]
@@ -681,19 +681,19 @@ theorem stepC_ring_ldClosed1 (s : St) (start : Bool) (g) (hpc : s.cp = .ldClosed
   all_goals grind [St.puView, St.poView, pushView, popViewP, popViewC, upd, holdsPush, holdsPopP, holdsPopC, startPush', startPop']
 
 theorem stepC_ring_pop (s : St) (start : Bool) (g cl p) (hpc : s.cp = .pop g cl p)
-    (h : TInv s) (hw : NoWrap s.ring) : RingInv (stepC s start).ring (stepC s start).puView (stepC s start).poView := by
+    (h : TInv s) : RingInv (stepC s start).ring (stepC s start).puView (stepC s start).poView := by
   obtain ⟨⟨hv, h1, h2, h3, h4, h5, h6, h7, h8, h9, h10, h11⟩, hring⟩ := h
   have hr : s.v.rfix = true := by rw [hv]; rfl
   have hpo : s.poplock = some .cons := h3.1 (by simp [hpc, holdsPopC])
   have hview : s.poView = some p := by simp [St.poView, hpo, hpc, popViewC]
   rw [hview] at hring
-  obtain ⟨k1, k2, k3⟩ := popStep_inv hring hw
+  obtain ⟨k1, k2, k3⟩ := popStep_inv hring
   simp only [stepC, hpc, St.loopTop, St.retC, hr, if_true]
   repeat' split
   all_goals grind [St.puView, St.poView, pushView, popViewP, popViewC, upd, holdsPush, holdsPopP, holdsPopC, startPush', startPop']
 
 theorem stepC_ring_ldClosedOld (s : St) (start : Bool)  (hpc : s.cp = .ldClosedOld )
-    (h : TInv s) (hw : NoWrap s.ring) : RingInv (stepC s start).ring (stepC s start).puView (stepC s start).poView := by
+    (h : TInv s) : RingInv (stepC s start).ring (stepC s start).puView (stepC s start).poView := by
   obtain ⟨⟨hv, h1, h2, h3, h4, h5, h6, h7, h8, h9, h10, h11⟩, hring⟩ := h
   have hr : s.v.rfix = true := by rw [hv]; rfl
   simp only [stepC, hpc, St.loopTop, St.retC, hr, if_true]
@@ -701,7 +701,7 @@ theorem stepC_ring_ldClosedOld (s : St) (start : Bool)  (hpc : s.cp = .ldClosedO
   all_goals grind [St.puView, St.poView, pushView, popViewP, popViewC, upd, holdsPush, holdsPopP, holdsPopC, startPush', startPop']
 
 theorem stepC_ring_stEnded (s : St) (start : Bool)  (hpc : s.cp = .stEnded )
-    (h : TInv s) (hw : NoWrap s.ring) : RingInv (stepC s start).ring (stepC s start).puView (stepC s start).poView := by
+    (h : TInv s) : RingInv (stepC s start).ring (stepC s start).puView (stepC s start).poView := by
   obtain ⟨⟨hv, h1, h2, h3, h4, h5, h6, h7, h8, h9, h10, h11⟩, hring⟩ := h
   have hr : s.v.rfix = true := by rw [hv]; rfl
   simp only [stepC, hpc, St.loopTop, St.retC, hr, if_true]
@@ -709,7 +709,7 @@ theorem stepC_ring_stEnded (s : St) (start : Bool)  (hpc : s.cp = .stEnded )
   all_goals grind [St.puView, St.poView, pushView, popViewP, popViewC, upd, holdsPush, holdsPopP, holdsPopC, startPush', startPop']
 
 theorem stepC_ring_await1 (s : St) (start : Bool) (g) (hpc : s.cp = .await1 g)
-    (h : TInv s) (hw : NoWrap s.ring) : RingInv (stepC s start).ring (stepC s start).puView (stepC s start).poView := by
+    (h : TInv s) : RingInv (stepC s start).ring (stepC s start).puView (stepC s start).poView := by
   obtain ⟨⟨hv, h1, h2, h3, h4, h5, h6, h7, h8, h9, h10, h11⟩, hring⟩ := h
   have hr : s.v.rfix = true := by rw [hv]; rfl
   simp only [stepC, hpc, St.loopTop, St.retC, hr, if_true]
@@ -717,7 +717,7 @@ theorem stepC_ring_await1 (s : St) (start : Bool) (g) (hpc : s.cp = .await1 g)
   all_goals grind [St.puView, St.poView, pushView, popViewP, popViewC, upd, holdsPush, holdsPopP, holdsPopC, startPush', startPop']
 
 theorem stepC_ring_await2 (s : St) (start : Bool)  (hpc : s.cp = .await2 )
-    (h : TInv s) (hw : NoWrap s.ring) : RingInv (stepC s start).ring (stepC s start).puView (stepC s start).poView := by
+    (h : TInv s) : RingInv (stepC s start).ring (stepC s start).puView (stepC s start).poView := by
   obtain ⟨⟨hv, h1, h2, h3, h4, h5, h6, h7, h8, h9, h10, h11⟩, hring⟩ := h
   have hr : s.v.rfix = true := by rw [hv]; rfl
   simp only [stepC, hpc, St.loopTop, St.retC, hr, if_true]
@@ -725,7 +725,7 @@ theorem stepC_ring_await2 (s : St) (start : Bool)  (hpc : s.cp = .await2 )
   all_goals grind [St.puView, St.poView, pushView, popViewP, popViewC, upd, holdsPush, holdsPopP, holdsPopC, startPush', startPop']
 
 theorem stepC_ring_ldClosed2 (s : St) (start : Bool)  (hpc : s.cp = .ldClosed2 )
-    (h : TInv s) (hw : NoWrap s.ring) : RingInv (stepC s start).ring (stepC s start).puView (stepC s start).poView := by
+    (h : TInv s) : RingInv (stepC s start).ring (stepC s start).puView (stepC s start).poView := by
   obtain ⟨⟨hv, h1, h2, h3, h4, h5, h6, h7, h8, h9, h10, h11⟩, hring⟩ := h
   have hr : s.v.rfix = true := by rw [hv]; rfl
   simp only [stepC, hpc, St.loopTop, St.retC, hr, if_true]
@@ -733,7 +733,7 @@ theorem stepC_ring_ldClosed2 (s : St) (start : Bool)  (hpc : s.cp = .ldClosed2 )
   all_goals grind [St.puView, St.poView, pushView, popViewP, popViewC, upd, holdsPush, holdsPopP, holdsPopC, startPush', startPop']
 
 theorem stepC_ring_isEmpty (s : St) (start : Bool)  (hpc : s.cp = .isEmpty )
-    (h : TInv s) (hw : NoWrap s.ring) : RingInv (stepC s start).ring (stepC s start).puView (stepC s start).poView := by
+    (h : TInv s) : RingInv (stepC s start).ring (stepC s start).puView (stepC s start).poView := by
   obtain ⟨⟨hv, h1, h2, h3, h4, h5, h6, h7, h8, h9, h10, h11⟩, hring⟩ := h
   have hr : s.v.rfix = true := by rw [hv]; rfl
   simp only [stepC, hpc, St.loopTop, St.retC, hr, if_true]
@@ -741,7 +741,7 @@ theorem stepC_ring_isEmpty (s : St) (start : Bool)  (hpc : s.cp = .isEmpty )
   all_goals grind [St.puView, St.poView, pushView, popViewP, popViewC, upd, holdsPush, holdsPopP, holdsPopC, startPush', startPop']
 
 theorem stepC_ring_stEnded2 (s : St) (start : Bool)  (hpc : s.cp = .stEnded2 )
-    (h : TInv s) (hw : NoWrap s.ring) : RingInv (stepC s start).ring (stepC s start).puView (stepC s start).poView := by
+    (h : TInv s) : RingInv (stepC s start).ring (stepC s start).puView (stepC s start).poView := by
   obtain ⟨⟨hv, h1, h2, h3, h4, h5, h6, h7, h8, h9, h10, h11⟩, hring⟩ := h
   have hr : s.v.rfix = true := by rw [hv]; rfl
   simp only [stepC, hpc, St.loopTop, St.retC, hr, if_true]
@@ -755,48 +755,71 @@ theorem stepS_ring (s : St) (start : Bool) (h : TInv s) :
   repeat' split
   all_goals exact hring
 
-theorem stepP_ring (s : St) (i : Nat) (op : Option POp) (h : TInv s) (hw : NoWrap s.ring) : RingInv (stepP s i op).ring (stepP s i op).puView (stepP s i op).poView := by
+theorem stepP_ring (s : St) (i : Nat) (op : Option POp) (h : TInv s) : RingInv (stepP s i op).ring (stepP s i op).puView (stepP s i op).poView := by
   cases hpc : s.pp i with
-  | none  => exact stepP_ring_none s i op  hpc h hw
-  | reserved  => exact stepP_ring_reserved s i op  hpc h hw
-  | gone  => exact stepP_ring_gone s i op  hpc h hw
-  | idle  => exact stepP_ring_idle s i op  hpc h hw
-  | acq k v rest => exact stepP_ring_acq s i op k v rest hpc h hw
-  | chk k v rest => exact stepP_ring_chk s i op k v rest hpc h hw
-  | push c v rest p => exact stepP_ring_push s i op c v rest p hpc h hw
-  | ntf c rest => exact stepP_ring_ntf s i op c rest hpc h hw
-  | tryLock v rest => exact stepP_ring_tryLock s i op v rest hpc h hw
-  | pop v rest p => exact stepP_ring_pop s i op v rest p hpc h hw
-  | clone j' => exact stepP_ring_clone s i op j' hpc h hw
-  | fetchSub  => exact stepP_ring_fetchSub s i op  hpc h hw
-  | stClosed  => exact stepP_ring_stClosed s i op  hpc h hw
-  | ntfW  => exact stepP_ring_ntfW s i op  hpc h hw
+  | none  => exact stepP_ring_none s i op  hpc h
+  | reserved  => exact stepP_ring_reserved s i op  hpc h
+  | gone  => exact stepP_ring_gone s i op  hpc h
+  | idle  => exact stepP_ring_idle s i op  hpc h
+  | acq k v rest => exact stepP_ring_acq s i op k v rest hpc h
+  | chk k v rest => exact stepP_ring_chk s i op k v rest hpc h
+  | push c v rest p => exact stepP_ring_push s i op c v rest p hpc h
+  | ntf c rest => exact stepP_ring_ntf s i op c rest hpc h
+  | tryLock v rest => exact stepP_ring_tryLock s i op v rest hpc h
+  | pop v rest p => exact stepP_ring_pop s i op v rest p hpc h
+  | clone j' => exact stepP_ring_clone s i op j' hpc h
+  | fetchSub  => exact stepP_ring_fetchSub s i op  hpc h
+  | stClosed  => exact stepP_ring_stClosed s i op  hpc h
+  | ntfW  => exact stepP_ring_ntfW s i op  hpc h
 
-theorem stepC_ring (s : St) (start : Bool) (h : TInv s) (hw : NoWrap s.ring) : RingInv (stepC s start).ring (stepC s start).puView (stepC s start).poView := by
+theorem stepC_ring (s : St) (start : Bool) (h : TInv s) : RingInv (stepC s start).ring (stepC s start).puView (stepC s start).poView := by
   cases hpc : s.cp with
-  | idle  => exact stepC_ring_idle s start  hpc h hw
-  | mkNtf  => exact stepC_ring_mkNtf s start  hpc h hw
-  | ldEnded g => exact stepC_ring_ldEnded s start g hpc h hw
-  | lock g => exact stepC_ring_lock s start g hpc h hw
-  | ldClosed1 g => exact stepC_ring_ldClosed1 s start g hpc h hw
-  | pop g cl p => exact stepC_ring_pop s start g cl p hpc h hw
-  | ldClosedOld  => exact stepC_ring_ldClosedOld s start  hpc h hw
-  | stEnded  => exact stepC_ring_stEnded s start  hpc h hw
-  | await1 g => exact stepC_ring_await1 s start g hpc h hw
-  | await2  => exact stepC_ring_await2 s start  hpc h hw
-  | ldClosed2  => exact stepC_ring_ldClosed2 s start  hpc h hw
-  | isEmpty  => exact stepC_ring_isEmpty s start  hpc h hw
-  | stEnded2  => exact stepC_ring_stEnded2 s start  hpc h hw
+  | idle  => exact stepC_ring_idle s start  hpc h
+  | mkNtf  => exact stepC_ring_mkNtf s start  hpc h
+  | ldEnded g => exact stepC_ring_ldEnded s start g hpc h
+  | lock g => exact stepC_ring_lock s start g hpc h
+  | ldClosed1 g => exact stepC_ring_ldClosed1 s start g hpc h
+  | pop g cl p => exact stepC_ring_pop s start g cl p hpc h
+  | ldClosedOld  => exact stepC_ring_ldClosedOld s start  hpc h
+  | stEnded  => exact stepC_ring_stEnded s start  hpc h
+  | await1 g => exact stepC_ring_await1 s start g hpc h
+  | await2  => exact stepC_ring_await2 s start  hpc h
+  | ldClosed2  => exact stepC_ring_ldClosed2 s start  hpc h
+  | isEmpty  => exact stepC_ring_isEmpty s start  hpc h
+  | stEnded2  => exact stepC_ring_stEnded2 s start  hpc h
 
-theorem step_TInv (s : St) (l : Label) (h : TInv s) (hw : NoWrap s.ring) : TInv (step s l) := by
+theorem step_TInv (s : St) (l : Label) (h : TInv s) : TInv (step s l) := by
   refine ⟨step_LInv s l h.l, ?_⟩
   cases l with
-  | prod i op => exact stepP_ring s i op h hw
-  | cons st => exact stepC_ring s st h hw
+  | prod i op => exact stepP_ring s i op h
+  | cons st => exact stepC_ring s st h
   | stop st => exact stepS_ring s st h
 
-theorem TInv.init (cap W : Nat) (h0 : 0 < cap) (h1 : cap < W) : TInv (St.init Variant.cur cap W 0) :=
-  ⟨LInv.init cap W, RingInv.init cap W h0 h1⟩
+theorem TInv.init (cap k : Nat) (h0 : 0 < cap) (h1 : cap < 2 ^ k) : TInv (St.init Variant.cur cap (2 ^ k) 0) :=
+  ⟨LInv.init cap (2 ^ k), RingInv.init cap k h0 h1⟩
+
+/-- a producer about to write a slot is the only writer, no producer is reading, and the consumer,
+if it is about to read, addresses a different slot -/
+theorem no_slot_race_of_inv (s : St) (hT : TInv s) (i tl v : Nat) (c : Ctx) (rest : List Nat)
+    (hw : s.pp i = .push c v rest (.write tl)) :
+    (∀ j c' v' rest' tl', s.pp j = .push c' v' rest' (.write tl') → j = i) ∧
+    (∀ j v' rest' hl, s.pp j ≠ .pop v' rest' (.read hl)) ∧
+    (∀ g cl hl, s.cp = .pop g cl (.read hl) → s.ring.idx tl ≠ s.ring.idx hl) := by
+  have hpl : s.plock = some i := (hT.l.plockIff i).1 (by simp [hw, holdsPush])
+  refine ⟨fun j c' v' rest' tl' hj => ?_, fun j v' rest' hl hj => ?_, fun g cl hl hc => ?_⟩
+  · have hj' : s.plock = some j := (hT.l.plockIff j).1 (by simp [hj, holdsPush])
+    rw [hpl] at hj'; exact (Option.some.inj hj').symm
+  · have hj' : s.plock = some j := (hT.l.plockIff j).1 (by simp [hj, holdsPush])
+    rw [hpl] at hj'
+    have : i = j := Option.some.inj hj'
+    subst this
+    rw [hw] at hj; exact PPc.noConfusion hj
+  · have hpo : s.poplock = some .cons := hT.l.poplockC.1 (by simp [hc, holdsPopC])
+    have hr := hT.ring
+    have e1 : s.puView = some (.write tl, (i, v)) := by simp [St.puView, hpl, hw, pushView]
+    have e2 : s.poView = some (.read hl) := by simp [St.poView, hpo, hc, popViewC]
+    rw [e1, e2] at hr
+    exact write_read_disjoint hr
 
 /-! ### frame: capacity / word never change, `tcount` never decreases; runs -/
 
@@ -846,22 +869,15 @@ theorem run_frame (s : St) (ls : List Label) :
     simp only [run, List.foldl_cons] at h2 ⊢
     exact ⟨h2.1.trans h1.1, h2.2.1.trans h1.2.1, Nat.le_trans h1.2.2.1 h2.2.2⟩
 
-/-- generic induction principle: an invariant preserved by every step under `NoWrap` holds after
-every run whose final state satisfies `NoWrap` -/
-theorem run_induct (P : St → Prop) (hstep : ∀ s l, P s → NoWrap s.ring → P (step s l))
-    (s : St) (ls : List Label) (h : P s) (hw : NoWrap (run s ls).ring) : P (run s ls) := by
+/-- generic induction principle: an invariant preserved by every step holds after every run -/
+theorem run_induct (P : St → Prop) (hstep : ∀ s l, P s → P (step s l))
+    (s : St) (ls : List Label) (h : P s) : P (run s ls) := by
   induction ls generalizing s with
   | nil => exact h
-  | cons l ls ih =>
-    simp only [run, List.foldl_cons] at hw ⊢
-    have hf := run_frame (step s l) ls
-    have hf1 := step_frame s l
-    have hw1 : NoWrap (step s l).ring := NoWrap.of_le hf.1 hf.2.1 hf.2.2 hw
-    have hw0 : NoWrap s.ring := NoWrap.of_le hf1.1 hf1.2.1 hf1.2.2.1 hw1
-    exact ih (step s l) (hstep s l h hw0) hw
+  | cons l ls ih => exact ih (step s l) (hstep s l h)
 
-theorem run_TInv (s : St) (ls : List Label) (h : TInv s) (hw : NoWrap (run s ls).ring) : TInv (run s ls) :=
-  run_induct TInv step_TInv s ls h hw
+theorem run_TInv (s : St) (ls : List Label) (h : TInv s) : TInv (run s ls) :=
+  run_induct TInv step_TInv s ls h
 
 /-! ### ghost logs: what was received is a subsequence of what was popped, which is a prefix of what
 was written, which is a subsequence of what the producers submitted (in lock-acquisition order) -/
@@ -889,8 +905,37 @@ theorem sub_snoc {α} {A B : List α} (x : α) (h : List.Sublist A B) : List.Sub
 theorem sub_right {α} {A B : List α} (x : α) (h : List.Sublist A B) : List.Sublist A (B ++ [x]) :=
   h.trans (List.sublist_append_left B [x])
 
-/-- what `recv` returned is a subsequence of what `pop` handed out -/
-def GInv (s : St) : Prop := List.Sublist s.recvd s.ring.outs
+/-- `c` is an interleaving (shuffle) of `a` and `b`: every element of `c` goes to exactly one of
+`a`, `b`, keeping the order (snoc form, matching how the logs grow) -/
+inductive Interleave {α : Type} : List α → List α → List α → Prop
+  | nil : Interleave [] [] []
+  | left {a b c : List α} (x : α) : Interleave a b c → Interleave (a ++ [x]) b (c ++ [x])
+  | right {a b c : List α} (x : α) : Interleave a b c → Interleave a (b ++ [x]) (c ++ [x])
+
+theorem Interleave.sub_left {α} {a b c : List α} (h : Interleave a b c) : List.Sublist a c := by
+  induction h with
+  | nil => exact List.Sublist.refl _
+  | left x _ ih => exact sub_snoc x ih
+  | right x _ ih => exact sub_right x ih
+theorem Interleave.sub_right' {α} {a b c : List α} (h : Interleave a b c) : List.Sublist b c := by
+  induction h with
+  | nil => exact List.Sublist.refl _
+  | left x _ ih => exact sub_right x ih
+  | right x _ ih => exact sub_snoc x ih
+theorem Interleave.length {α} {a b c : List α} (h : Interleave a b c) : c.length = a.length + b.length := by
+  induction h with
+  | nil => rfl
+  | left x _ ih => simp [ih]; omega
+  | right x _ ih => simp [ih]; omega
+theorem Interleave.mem {α} {a b c : List α} (h : Interleave a b c) (x : α) : x ∈ c ↔ x ∈ a ∨ x ∈ b := by
+  induction h with
+  | nil => simp
+  | left y _ ih => simp [ih]; grind
+  | right y _ ih => simp [ih]; grind
+
+/-- every value handed out by `pop` went either to the consumer (`recvd`) or was discarded by a
+drop-oldest producer (`droppedOld`) — exactly one of the two, order kept -/
+def GInv (s : St) : Prop := Interleave s.recvd s.droppedOld s.ring.outs
 
 theorem step_GInv (s : St) (l : Label) (h : GInv s) : GInv (step s l) := by
   unfold GInv at *
@@ -906,7 +951,7 @@ theorem step_GInv (s : St) (l : Label) (h : GInv s) : GInv (step s l) := by
       have := popStep_outs s.ring p
       simp only [step, stepP, hpc, St.setP]
       repeat' split
-      all_goals grind [sub_right]
+      all_goals grind [Interleave.right]
     | _ =>
       simp only [step, stepP, hpc, startP, St.endSample, St.beginSample, St.setP]
       repeat' split
@@ -917,7 +962,7 @@ theorem step_GInv (s : St) (l : Label) (h : GInv s) : GInv (step s l) := by
       have := popStep_outs s.ring p
       simp only [step, stepC, hpc, St.loopTop, St.retC]
       repeat' split
-      all_goals grind [sub_snoc]
+      all_goals grind [Interleave.left]
     | _ =>
       simp only [step, stepC, hpc, St.loopTop, St.retC]
       repeat' split
@@ -928,7 +973,7 @@ theorem step_GInv (s : St) (l : Label) (h : GInv s) : GInv (step s l) := by
     all_goals exact h
 
 theorem GInv.init (v : Variant) (cap W : Nat) : GInv (St.init v cap W 0) := by
-  simp [GInv, St.init, Ring.init]
+  simp only [GInv, St.init, Ring.init]; exact Interleave.nil
 
 theorem run_GInv (s : St) (ls : List Label) (h : GInv s) : GInv (run s ls) := by
   induction ls generalizing s with
@@ -955,9 +1000,9 @@ theorem closed_no_holder (s : St) (hL : LInv s) (hc : s.closed = true) (i : Nat)
   | false => rfl
   | true => have := (hL.liveIff i).2 h; simp_all
 
-theorem popStep_le {r pu p} (h : RingInv r pu (some p)) (hw : NoWrap r) :
+theorem popStep_le {r pu p} (h : RingInv r pu (some p)) :
     (popStep r p).1.hcount ≤ (popStep r p).1.tcount := by
-  obtain ⟨k1, k2, k3⟩ := popStep_inv h hw
+  obtain ⟨k1, k2, k3⟩ := popStep_inv h
   cases hout : (popStep r p).2 with
   | cont p' => exact (k1 p' hout).le1
   | empty => exact (k2 hout).1.le1
@@ -1131,7 +1176,7 @@ theorem stepP_EInv_ntfW (s : St) (i : Nat) (op : Option POp)  (hpc : s.pp i = .n
     | (refine ⟨?_, ?_, ?_, ?_, ?_, ?_, ?_⟩ <;> grind [Drained, upd, holdsPush, holdsPopP, holdsPopC, hasHandle, PopperOk, PusherOk])
 
 theorem stepC_EInv_idle (s : St) (start : Bool)  (hpc : s.cp = .idle )
-    (hT : TInv s) (hw : NoWrap s.ring) (h : EInv s) : EInv (stepC s start) := by
+    (hT : TInv s) (h : EInv s) : EInv (stepC s start) := by
   obtain ⟨e1, e2, e3, e4, e5, e6, e7⟩ := h
   have hr : s.v.rfix = true := by rw [hT.l.var]; rfl
   simp only [stepC, hpc, St.loopTop, St.retC, hr, if_true]
@@ -1141,7 +1186,7 @@ theorem stepC_EInv_idle (s : St) (start : Bool)  (hpc : s.cp = .idle )
     | (refine ⟨?_, ?_, ?_, ?_, ?_, ?_, ?_⟩ <;> grind [Drained, upd, holdsPush, holdsPopP, holdsPopC, hasHandle, PopperOk, PusherOk])
 
 theorem stepC_EInv_mkNtf (s : St) (start : Bool)  (hpc : s.cp = .mkNtf )
-    (hT : TInv s) (hw : NoWrap s.ring) (h : EInv s) : EInv (stepC s start) := by
+    (hT : TInv s) (h : EInv s) : EInv (stepC s start) := by
   obtain ⟨e1, e2, e3, e4, e5, e6, e7⟩ := h
   have hr : s.v.rfix = true := by rw [hT.l.var]; rfl
   simp only [stepC, hpc, St.loopTop, St.retC, hr, if_true]
@@ -1151,7 +1196,7 @@ theorem stepC_EInv_mkNtf (s : St) (start : Bool)  (hpc : s.cp = .mkNtf )
     | (refine ⟨?_, ?_, ?_, ?_, ?_, ?_, ?_⟩ <;> grind [Drained, upd, holdsPush, holdsPopP, holdsPopC, hasHandle, PopperOk, PusherOk])
 
 theorem stepC_EInv_ldEnded (s : St) (start : Bool) (g) (hpc : s.cp = .ldEnded g)
-    (hT : TInv s) (hw : NoWrap s.ring) (h : EInv s) : EInv (stepC s start) := by
+    (hT : TInv s) (h : EInv s) : EInv (stepC s start) := by
   obtain ⟨e1, e2, e3, e4, e5, e6, e7⟩ := h
   have hr : s.v.rfix = true := by rw [hT.l.var]; rfl
   simp only [stepC, hpc, St.loopTop, St.retC, hr, if_true]
@@ -1161,7 +1206,7 @@ theorem stepC_EInv_ldEnded (s : St) (start : Bool) (g) (hpc : s.cp = .ldEnded g)
     | (refine ⟨?_, ?_, ?_, ?_, ?_, ?_, ?_⟩ <;> grind [Drained, upd, holdsPush, holdsPopP, holdsPopC, hasHandle, PopperOk, PusherOk])
 
 theorem stepC_EInv_lock (s : St) (start : Bool) (g) (hpc : s.cp = .lock g)
-    (hT : TInv s) (hw : NoWrap s.ring) (h : EInv s) : EInv (stepC s start) := by
+    (hT : TInv s) (h : EInv s) : EInv (stepC s start) := by
   obtain ⟨e1, e2, e3, e4, e5, e6, e7⟩ := h
   have hr : s.v.rfix = true := by rw [hT.l.var]; rfl
   simp only [stepC, hpc, St.loopTop, St.retC, hr, if_true]
@@ -1171,7 +1216,7 @@ theorem stepC_EInv_lock (s : St) (start : Bool) (g) (hpc : s.cp = .lock g)
     | (refine ⟨?_, ?_, ?_, ?_, ?_, ?_, ?_⟩ <;> grind [Drained, upd, holdsPush, holdsPopP, holdsPopC, hasHandle, PopperOk, PusherOk])
 
 theorem stepC_EInv_ldClosed1 (s : St) (start : Bool) (g) (hpc : s.cp = .ldClosed1 g)
-    (hT : TInv s) (hw : NoWrap s.ring) (h : EInv s) : EInv (stepC s start) := by
+    (hT : TInv s) (h : EInv s) : EInv (stepC s start) := by
   obtain ⟨e1, e2, e3, e4, e5, e6, e7⟩ := h
   have hr : s.v.rfix = true := by rw [hT.l.var]; rfl
   simp only [stepC, hpc, St.loopTop, St.retC, hr, if_true]
@@ -1181,16 +1226,16 @@ theorem stepC_EInv_ldClosed1 (s : St) (start : Bool) (g) (hpc : s.cp = .ldClosed
     | (refine ⟨?_, ?_, ?_, ?_, ?_, ?_, ?_⟩ <;> grind [Drained, upd, holdsPush, holdsPopP, holdsPopC, hasHandle, PopperOk, PusherOk])
 
 theorem stepC_EInv_pop (s : St) (start : Bool) (g cl p) (hpc : s.cp = .pop g cl p)
-    (hT : TInv s) (hw : NoWrap s.ring) (h : EInv s) : EInv (stepC s start) := by
+    (hT : TInv s) (h : EInv s) : EInv (stepC s start) := by
   obtain ⟨e1, e2, e3, e4, e5, e6, e7⟩ := h
   have hr : s.v.rfix = true := by rw [hT.l.var]; rfl
   have hpo : s.poplock = some .cons := hT.l.poplockC.1 (by simp [hpc, holdsPopC])
   have hview : s.poView = some p := by simp [St.poView, hpo, hpc, popViewC]
   have hring := hT.ring
   rw [hview] at hring
-  obtain ⟨k1, k2, k3⟩ := popStep_inv hring hw
+  obtain ⟨k1, k2, k3⟩ := popStep_inv hring
   have hfr := popStep_frame s.ring p
-  have hle := popStep_le hring hw
+  have hle := popStep_le hring
   simp only [stepC, hpc, St.loopTop, St.retC, hr, if_true]
   repeat' split
   all_goals first
@@ -1198,7 +1243,7 @@ theorem stepC_EInv_pop (s : St) (start : Bool) (g cl p) (hpc : s.cp = .pop g cl 
     | (refine ⟨?_, ?_, ?_, ?_, ?_, ?_, ?_⟩ <;> grind [Drained, upd, holdsPush, holdsPopP, holdsPopC, hasHandle, PopperOk, PusherOk])
 
 theorem stepC_EInv_ldClosedOld (s : St) (start : Bool)  (hpc : s.cp = .ldClosedOld )
-    (hT : TInv s) (hw : NoWrap s.ring) (h : EInv s) : EInv (stepC s start) := by
+    (hT : TInv s) (h : EInv s) : EInv (stepC s start) := by
   obtain ⟨e1, e2, e3, e4, e5, e6, e7⟩ := h
   have hr : s.v.rfix = true := by rw [hT.l.var]; rfl
   simp only [stepC, hpc, St.loopTop, St.retC, hr, if_true]
@@ -1208,7 +1253,7 @@ theorem stepC_EInv_ldClosedOld (s : St) (start : Bool)  (hpc : s.cp = .ldClosedO
     | (refine ⟨?_, ?_, ?_, ?_, ?_, ?_, ?_⟩ <;> grind [Drained, upd, holdsPush, holdsPopP, holdsPopC, hasHandle, PopperOk, PusherOk])
 
 theorem stepC_EInv_stEnded (s : St) (start : Bool)  (hpc : s.cp = .stEnded )
-    (hT : TInv s) (hw : NoWrap s.ring) (h : EInv s) : EInv (stepC s start) := by
+    (hT : TInv s) (h : EInv s) : EInv (stepC s start) := by
   obtain ⟨e1, e2, e3, e4, e5, e6, e7⟩ := h
   have hr : s.v.rfix = true := by rw [hT.l.var]; rfl
   simp only [stepC, hpc, St.loopTop, St.retC, hr, if_true]
@@ -1218,7 +1263,7 @@ theorem stepC_EInv_stEnded (s : St) (start : Bool)  (hpc : s.cp = .stEnded )
     | (refine ⟨?_, ?_, ?_, ?_, ?_, ?_, ?_⟩ <;> grind [Drained, upd, holdsPush, holdsPopP, holdsPopC, hasHandle, PopperOk, PusherOk])
 
 theorem stepC_EInv_await1 (s : St) (start : Bool) (g) (hpc : s.cp = .await1 g)
-    (hT : TInv s) (hw : NoWrap s.ring) (h : EInv s) : EInv (stepC s start) := by
+    (hT : TInv s) (h : EInv s) : EInv (stepC s start) := by
   obtain ⟨e1, e2, e3, e4, e5, e6, e7⟩ := h
   have hr : s.v.rfix = true := by rw [hT.l.var]; rfl
   simp only [stepC, hpc, St.loopTop, St.retC, hr, if_true]
@@ -1228,7 +1273,7 @@ theorem stepC_EInv_await1 (s : St) (start : Bool) (g) (hpc : s.cp = .await1 g)
     | (refine ⟨?_, ?_, ?_, ?_, ?_, ?_, ?_⟩ <;> grind [Drained, upd, holdsPush, holdsPopP, holdsPopC, hasHandle, PopperOk, PusherOk])
 
 theorem stepC_EInv_await2 (s : St) (start : Bool)  (hpc : s.cp = .await2 )
-    (hT : TInv s) (hw : NoWrap s.ring) (h : EInv s) : EInv (stepC s start) := by
+    (hT : TInv s) (h : EInv s) : EInv (stepC s start) := by
   obtain ⟨e1, e2, e3, e4, e5, e6, e7⟩ := h
   have hr : s.v.rfix = true := by rw [hT.l.var]; rfl
   simp only [stepC, hpc, St.loopTop, St.retC, hr, if_true]
@@ -1238,7 +1283,7 @@ theorem stepC_EInv_await2 (s : St) (start : Bool)  (hpc : s.cp = .await2 )
     | (refine ⟨?_, ?_, ?_, ?_, ?_, ?_, ?_⟩ <;> grind [Drained, upd, holdsPush, holdsPopP, holdsPopC, hasHandle, PopperOk, PusherOk])
 
 theorem stepC_EInv_ldClosed2 (s : St) (start : Bool)  (hpc : s.cp = .ldClosed2 )
-    (hT : TInv s) (hw : NoWrap s.ring) (h : EInv s) : EInv (stepC s start) := by
+    (hT : TInv s) (h : EInv s) : EInv (stepC s start) := by
   obtain ⟨e1, e2, e3, e4, e5, e6, e7⟩ := h
   have hr : s.v.rfix = true := by rw [hT.l.var]; rfl
   simp only [stepC, hpc, St.loopTop, St.retC, hr, if_true]
@@ -1248,7 +1293,7 @@ theorem stepC_EInv_ldClosed2 (s : St) (start : Bool)  (hpc : s.cp = .ldClosed2 )
     | (refine ⟨?_, ?_, ?_, ?_, ?_, ?_, ?_⟩ <;> grind [Drained, upd, holdsPush, holdsPopP, holdsPopC, hasHandle, PopperOk, PusherOk])
 
 theorem stepC_EInv_isEmpty (s : St) (start : Bool)  (hpc : s.cp = .isEmpty )
-    (hT : TInv s) (hw : NoWrap s.ring) (h : EInv s) : EInv (stepC s start) := by
+    (hT : TInv s) (h : EInv s) : EInv (stepC s start) := by
   obtain ⟨e1, e2, e3, e4, e5, e6, e7⟩ := h
   have hr : s.v.rfix = true := by rw [hT.l.var]; rfl
   have hie := isEmpty_drained s hT
@@ -1259,7 +1304,7 @@ theorem stepC_EInv_isEmpty (s : St) (start : Bool)  (hpc : s.cp = .isEmpty )
     | (refine ⟨?_, ?_, ?_, ?_, ?_, ?_, ?_⟩ <;> grind [Drained, upd, holdsPush, holdsPopP, holdsPopC, hasHandle, PopperOk, PusherOk])
 
 theorem stepC_EInv_stEnded2 (s : St) (start : Bool)  (hpc : s.cp = .stEnded2 )
-    (hT : TInv s) (hw : NoWrap s.ring) (h : EInv s) : EInv (stepC s start) := by
+    (hT : TInv s) (h : EInv s) : EInv (stepC s start) := by
   obtain ⟨e1, e2, e3, e4, e5, e6, e7⟩ := h
   have hr : s.v.rfix = true := by rw [hT.l.var]; rfl
   simp only [stepC, hpc, St.loopTop, St.retC, hr, if_true]
@@ -1285,21 +1330,21 @@ theorem stepP_EInv (s : St) (i : Nat) (op : Option POp) (hT : TInv s) (h : EInv 
   | stClosed  => exact stepP_EInv_stClosed s i op  hpc hT h
   | ntfW  => exact stepP_EInv_ntfW s i op  hpc hT h
 
-theorem stepC_EInv (s : St) (start : Bool) (hT : TInv s) (hw : NoWrap s.ring) (h : EInv s) : EInv (stepC s start) := by
+theorem stepC_EInv (s : St) (start : Bool) (hT : TInv s) (h : EInv s) : EInv (stepC s start) := by
   cases hpc : s.cp with
-  | idle  => exact stepC_EInv_idle s start  hpc hT hw h
-  | mkNtf  => exact stepC_EInv_mkNtf s start  hpc hT hw h
-  | ldEnded g => exact stepC_EInv_ldEnded s start g hpc hT hw h
-  | lock g => exact stepC_EInv_lock s start g hpc hT hw h
-  | ldClosed1 g => exact stepC_EInv_ldClosed1 s start g hpc hT hw h
-  | pop g cl p => exact stepC_EInv_pop s start g cl p hpc hT hw h
-  | ldClosedOld  => exact stepC_EInv_ldClosedOld s start  hpc hT hw h
-  | stEnded  => exact stepC_EInv_stEnded s start  hpc hT hw h
-  | await1 g => exact stepC_EInv_await1 s start g hpc hT hw h
-  | await2  => exact stepC_EInv_await2 s start  hpc hT hw h
-  | ldClosed2  => exact stepC_EInv_ldClosed2 s start  hpc hT hw h
-  | isEmpty  => exact stepC_EInv_isEmpty s start  hpc hT hw h
-  | stEnded2  => exact stepC_EInv_stEnded2 s start  hpc hT hw h
+  | idle  => exact stepC_EInv_idle s start  hpc hT h
+  | mkNtf  => exact stepC_EInv_mkNtf s start  hpc hT h
+  | ldEnded g => exact stepC_EInv_ldEnded s start g hpc hT h
+  | lock g => exact stepC_EInv_lock s start g hpc hT h
+  | ldClosed1 g => exact stepC_EInv_ldClosed1 s start g hpc hT h
+  | pop g cl p => exact stepC_EInv_pop s start g cl p hpc hT h
+  | ldClosedOld  => exact stepC_EInv_ldClosedOld s start  hpc hT h
+  | stEnded  => exact stepC_EInv_stEnded s start  hpc hT h
+  | await1 g => exact stepC_EInv_await1 s start g hpc hT h
+  | await2  => exact stepC_EInv_await2 s start  hpc hT h
+  | ldClosed2  => exact stepC_EInv_ldClosed2 s start  hpc hT h
+  | isEmpty  => exact stepC_EInv_isEmpty s start  hpc hT h
+  | stEnded2  => exact stepC_EInv_stEnded2 s start  hpc hT h
 
 theorem stepS_EInv (s : St) (start : Bool) (h : EInv s) : EInv (stepS s start) := by
   obtain ⟨e1, e2, e3, e4, e5, e6, e7⟩ := h
@@ -1317,18 +1362,18 @@ structure FInv (s : St) : Prop where
   t : TInv s
   e : EInv s
 
-theorem step_FInv (s : St) (l : Label) (h : FInv s) (hw : NoWrap s.ring) : FInv (step s l) := by
-  refine ⟨step_TInv s l h.t hw, ?_⟩
+theorem step_FInv (s : St) (l : Label) (h : FInv s) : FInv (step s l) := by
+  refine ⟨step_TInv s l h.t, ?_⟩
   cases l with
   | prod i op => exact stepP_EInv s i op h.t h.e
-  | cons st => exact stepC_EInv s st h.t hw h.e
+  | cons st => exact stepC_EInv s st h.t h.e
   | stop st => exact stepS_EInv s st h.e
 
-theorem FInv.init (cap W : Nat) (h0 : 0 < cap) (h1 : cap < W) : FInv (St.init Variant.cur cap W 0) :=
-  ⟨TInv.init cap W h0 h1, EInv.init cap W⟩
+theorem FInv.init (cap k : Nat) (h0 : 0 < cap) (h1 : cap < 2 ^ k) : FInv (St.init Variant.cur cap (2 ^ k) 0) :=
+  ⟨TInv.init cap k h0 h1, EInv.init cap (2 ^ k)⟩
 
-theorem run_FInv (s : St) (ls : List Label) (h : FInv s) (hw : NoWrap (run s ls).ring) : FInv (run s ls) :=
-  run_induct FInv step_FInv s ls h hw
+theorem run_FInv (s : St) (ls : List Label) (h : FInv s) : FInv (run s ls) :=
+  run_induct FInv step_FInv s ls h
 
 /-! ### the closing `notify_waiters` is never lost -/
 
@@ -1678,7 +1723,7 @@ theorem stepC_NInv (s : St) (start : Bool) (hL : LInv s) (h : NInv s) : NInv (st
 theorem NInv.init (cap W : Nat) : NInv (St.init Variant.cur cap W 0) := by
   refine ⟨?_, ?_, ?_, ?_, ?_, ?_⟩ <;> simp [St.init, capturedGen]
 
-/-- control invariant + wake-up invariant (independent of the ring, hence of `NoWrap`) -/
+/-- control invariant + wake-up invariant (independent of the ring) -/
 structure WInv (s : St) : Prop where
   l : LInv s
   n : NInv s
